@@ -2,11 +2,13 @@
   Driver engine for C06 (commands `rng.*`): run-twice digests, streams used per action, varied
   seeds, provider construction / seed order / aliasing / isolation, rejections, read_seeds.
   Expected values come from the definitions the theorems of Props/C06.lean are about
-  (`seedMulti`, `seedNamed`, `Provider.*`, `uses`, `usesRun`, `readSeedsVec`, `readSeedsText`).
+  (`seedMulti`, `seedNamed`, `Provider.*`, `uses`, `usesRun`, `specUses`, `knownRegion`, `readSeedsVec`,
+  `readSeedsText`).
 -/
 import PopsModel.Driver.Util
 import PopsModel.Model.StreamText
 import PopsModel.Model.StreamUses
+import PopsModel.Model.StreamSpec
 namespace Pops.Driver.StreamEng
 open Pops Pops.Driver
 
@@ -40,11 +42,13 @@ def cfg? (toks : List String) : Option UseCfg := do
   let lethal ← lookBool kv "lethal"; let survival ← lookBool kv "survival"
   let overpop ← lookBool kv "overpop"; let movements ← lookBool kv "movements"
   let wdist ← lookBool kv "wdist"
+  -- `Config::movement_stochasticity`; lines written before the flag was reported have the default
+  let msto := (lookBool kv "msto").getD true
   some { generateStochastic := gen, establishmentStochastic := est, hosts := hosts, soils := soils,
          useAnthro := anthro, dispersalStochastic := dsto, naturalKernel := nat, anthroKernel := ant,
          injectedKernel := if inj then some [.naturalDispersal] else none,
          useLethal := lethal, useSurvival := survival, useOverpopulation := overpop,
-         useMovements := movements, weatherFromDistribution := wdist }
+         useMovements := movements, weatherFromDistribution := wdist, movementStochastic := msto }
 
 def names? (s : String) : Option (List StreamName) :=
   if s = "-" then some [] else (s.splitOn ",").mapM StreamName.ofKey?
@@ -232,9 +236,23 @@ def handle (st : State) (cmd : String) (inp obs : List String) : State × String
     | [name, ref], [d], some c =>
       match StreamName.ofKey? name with
       | some n =>
-        if (usesRun c).contains n then (st, "ok")
-        else if d = ref then (st, "ok")
-        else (st, s!"PROPFAIL C06 disabled_seed_matters stream={name} used={showNames (usesRun c)}")
+        -- "results do not depend on the seed of a process that is disabled or made deterministic":
+        -- `specUses c` are the streams the sentence allows this configuration to depend on, `usesRun c`
+        -- the streams the code draws from (the model of the code).
+        if d = ref then (st, "ok")
+        else if (specUses c).contains n then
+          -- allowed to matter; that it does although the model says the code never draws from it would be
+          -- an error of the table `uses` (impossible by `C06_spec_within_code`)
+          if (usesRun c).contains n then (st, "ok")
+          else (st, s!"MISMATCH vary stream={name} model=not_used used={showNames (usesRun c).eraseDups}")
+        else if !(usesRun c).contains n then
+          (st, s!"PROPFAIL C06 disabled_seed_matters stream={name} used={showNames (usesRun c).eraseDups}")
+        else
+          -- the code uses a stream the property does not allow: by `C06_code_outside_spec` one of the
+          -- regions of the open findings F28 / F29 / F32 (negated hypotheses of `C06_deterministic_mode_partial`)
+          match knownRegion c n with
+          | some f => (st, s!"KNOWN C06 {f} deterministic_seed_matters stream={name} allowed={showNames (specUses c)} used={showNames (usesRun c).eraseDups}")
+          | none => (st, s!"PROPFAIL C06 deterministic_seed_matters stream={name} allowed={showNames (specUses c)} used={showNames (usesRun c).eraseDups}")
       | none => (st, "BADLINE")
     | _, _, _ => (st, "BADLINE")
   | "rng.order" => (st, providerLine (some "seed_order") inp obs)
